@@ -536,6 +536,13 @@ func (t *trans) isByteExpr(e ast.Expr) bool {
 func (t *trans) args(as []ast.Expr) string {
 	var s []string
 	for _, a := range as {
+		if t.cur != nil && t.isRecv(a) {
+			if tv, ok := t.info.Types[a]; ok && isPointer(tv.Type) {
+				// the (non-nil) receiver handed on as a pointer
+				s = append(s, "(some "+t.cur.recv+")")
+				continue
+			}
+		}
 		s = append(s, t.expr(a))
 	}
 	return strings.Join(s, " ")
@@ -597,6 +604,7 @@ func (t *trans) effectCall(c *ast.CallExpr) (handled bool, value string) {
 		}
 	}
 	if name == "http.Error" && len(c.Args) == 3 {
+		// (the status as written in the source: StatusBadRequest, StatusInternalServerError, …)
 		evArgs = []string{leanStr(strings.TrimPrefix(t.src(c.Args[2]), "http."))}
 	}
 	t.pre = append(t.pre, "trace' := trace' ++ [⟨"+leanStr(name)+", ["+strings.Join(evArgs, ", ")+"]⟩]")
@@ -790,6 +798,15 @@ func (t *trans) call(c *ast.CallExpr) string {
 		case "String":
 			if len(c.Args) == 0 {
 				return t.expr(f.X) + ".str"
+			}
+		}
+		// the IdP's session provider takes the request value, whose type refers back to the IdP: as a record field that would be
+		// a cyclic structure; it is an `Env` function of the IdP instead
+		if f.Sel.Name == "GetSession" && strings.HasSuffix(t.src(f.X), ".SessionProvider") && len(c.Args) == 3 {
+			if inner, ok := f.X.(*ast.SelectorExpr); ok && t.isRecv(inner.X) {
+				t.addExtern("sessionProviderGetSession", "IdentityProvider → ResponseWriter → (Option HTTPRequest) → (Option IdpAuthnRequest) → Outcome (Option Session)")
+				t.touchStruct("Session")
+				return "(← env.sessionProviderGetSession " + t.cur.recv + " " + t.args(c.Args) + ")"
 			}
 		}
 		// method of a translated receiver type, or a function-valued field / interface method
@@ -1109,7 +1126,7 @@ func (t *trans) stmt1(o *out, ind int, s ast.Stmt) {
 				return
 			}
 			// log lines are not part of the behaviour that is modelled
-			if strings.HasSuffix(t.src(c.Fun), ".logger.Printf") {
+			if strings.HasSuffix(t.src(c.Fun), ".logger.Printf") || strings.HasSuffix(t.src(c.Fun), ".Logger.Printf") {
 				return
 			}
 		}
@@ -1671,6 +1688,10 @@ func (t *trans) function(name string) {
 	o.b.WriteString(bo.b.String())
 	// a body whose last statement is not a return (void functions) needs a final value
 	if sp.until != "" && sp.yield == "" {
+		if sp.trace {
+			// the translated prefix ran to its end: the handler goes on (told apart from the early returns by this last event)
+			o.line(1, "trace' := trace' ++ [⟨\"(continues)\", []⟩]")
+		}
 		o.line(1, "return "+t.retExpr(nil))
 	} else if sp.until != "" {
 		o.line(1, "return ("+leanIdent(sp.yield)+", none)")
@@ -1813,8 +1834,9 @@ func translate(repo string, p *pkgFiles, outPath string) {
 		{fn: "ServeIDPInitiated", recv: "IdentityProvider", as: "idpInitiatedSelect", state: "req",
 			anchor: "for _, spssoDescriptor := range req.ServiceProviderMetadata.SPSSODescriptors", until: "if req.ACSEndpoint == nil"},
 		{fn: "Validate", recv: "IdpAuthnRequest", mutRecv: true, anchor: "mustHaveDestination :="},
+		{fn: "ServeSSO", recv: "IdentityProvider", as: "serveSSOGate", trace: true, until: "assertionMaker := idp.AssertionMaker"},
 	}
-	rootExterns := map[string]bool{"validateSignature": true, "decryptElement": true, "unmarshalElement": true, "findChildren": true,
+	rootExterns := map[string]bool{"NewIdpAuthnRequest": true, "Validate": true, "validateSignature": true, "decryptElement": true, "unmarshalElement": true, "findChildren": true,
 		"findChild": true, "getIDPSigningCerts": true, "getCertBasedOnFingerprint": true, "parseCert": true}
 	rootPkg := translatePkg(p, outPath, "saml", "SamlVerif.Trans", rootSpecs, rootExterns, nil)
 	xSpecs := []transSpec{
